@@ -323,6 +323,8 @@ def swap_exception_signature(e, mpo, algo0, jw_eff):
         if algo0 == "qr" and jw_eff:
             return "try_swap_site:swap_jw+mpo-built-with-qr:AssertionError:bond-operator-count"
         return "try_swap_site:graph-built-mpo:AssertionError:bond-operator-count"
+    if isinstance(e, AssertionError) and "len(o) > 0" in line and algo0 == "qr":
+        return "try_swap_site:mpo-built-with-qr:AssertionError:empty-bond-operator"
     return f"try_swap_site:raises:{type(e).__name__}:jw={jw_eff}"
 
 
